@@ -69,7 +69,7 @@ impl<C: Config, Q: Query> Snapshot<C, Q> {
         caller_information: &CallerInformation,
         lock_guard: ComputingLockGuard<C>,
     ) {
-        let Some((lock_guard, snapshot)) =
+        let Some((lock_guard, mut snapshot)) =
             self.should_recompute_query(caller_information, lock_guard).await
         else {
             return;
@@ -80,7 +80,27 @@ impl<C: Config, Q: Query> Snapshot<C, Q> {
         // order to determine if the query needs to be recomputed. When it's
         // decided to recompute, we will have to clear the dependencies recorded
         // during the repairation phase to avoid keeping stale dependencies.
+        //
+        //
+        // A query that was found to be part of a dependency cycle while its
+        // callees were being checked is different: its execution is cut short
+        // at its first read and would record no other dependency, so it could
+        // never be invalidated when the cycle disappears. It keeps the
+        // dependencies of its previous execution, in their recorded order.
+        let in_scc = lock_guard.query_computing().is_in_scc();
+        let previous_callees = if in_scc {
+            snapshot.forward_edge_order().await
+        } else {
+            None
+        };
+
         lock_guard.query_computing().clear_dependencies();
+
+        if let Some(previous_callees) = previous_callees {
+            for callee in previous_callees.iter_all_callees() {
+                lock_guard.query_computing().register_calee(&callee);
+            }
+        }
 
         // recompute the query
         snapshot
@@ -116,6 +136,12 @@ impl<C: Config, Q: Query> Snapshot<C, Q> {
                 &lock_guard,
             )
             .await;
+
+        // a query that turned out to be part of a dependency cycle must not
+        // keep its stored value
+        if lock_guard.query_computing().is_in_scc() {
+            return Some((lock_guard, self));
+        }
 
         let (repair_transitive_firewall_callees, cleaned_edges) =
             match recompute {
@@ -275,7 +301,7 @@ impl<C: Config, Q: Query> Snapshot<C, Q> {
                 .executor_registry
                 .get_executor_entry_by_type_id(&callee.stable_type_id());
 
-            let _ = entry
+            let repaired = entry
                 .repair_query_from_query_id(
                     engine,
                     &callee.compact_hash_128(),
@@ -293,6 +319,13 @@ impl<C: Config, Q: Query> Snapshot<C, Q> {
                     ),
                 )
                 .await;
+
+            // Repairing the callee closed a dependency cycle through this
+            // query: its stored value must not be kept. Executing it again
+            // runs into the same cycle and gives it its cycle default.
+            if repaired.is_err() {
+                return CalleeCheckDecision::Recompute;
+            }
         }
 
         let mut repair_transitive_firewall_callees = false;
